@@ -81,9 +81,9 @@ def run_audit(ths):
     p = subprocess.run(["lake", "env", "lean", path], cwd=engine.LEAN_DIR, stdout=subprocess.PIPE, stderr=subprocess.STDOUT, text=True)
     out = p.stdout
     axioms, stmts = {}, {}
-    for m in re.finditer(r"'([^']+(?:'[^ ]*)?)' depends on axioms: \[([^\]]*)\]", out):
+    for m in re.finditer(r"^'([A-Za-z_][\w.']*)' depends on axioms: \[([^\]]*)\]", out, flags=re.M):
         axioms[m.group(1)] = [a.strip() for a in m.group(2).replace("\n", " ").split(",") if a.strip()]
-    for m in re.finditer(r"'(\S+)' does not depend on any axioms", out):
+    for m in re.finditer(r"^'([A-Za-z_][\w.']*)' does not depend on any axioms", out, flags=re.M):
         axioms[m.group(1)] = []
     for m in re.finditer(r"STMT-BEGIN (\S+)\n(.*?)\nSTMT-END", out, flags=re.S):
         stmts[m.group(1)] = hashlib.sha256(m.group(2).encode()).hexdigest()[:24]
